@@ -5,7 +5,7 @@ import itertools
 import sys
 
 from checks.common import load_sidecars, _lemma_worker
-from pyvc.contracts import LEMMAS, Bool, Int, SeqOf, Str
+from pyvc.contracts import LEMMAS, Bool, Enum, Int, SeqOf, Str
 
 load_sidecars()
 bad = 0
@@ -16,6 +16,11 @@ for key, lm in sorted(LEMMAS.items()):
     for n, spec in lm.params.items():
         if isinstance(spec, Int):
             doms.append(range(spec.lo if spec.lo is not None else -4, (spec.hi if spec.hi is not None else 4) + 1))
+        elif isinstance(spec, Enum):
+            import importlib
+            mod = importlib.import_module("ahbicht.models.condition_nodes" if spec.cls == "ConditionFulfilledValue"
+                                          else "ahbicht.models.enums")
+            doms.append(list(getattr(mod, spec.cls)))
         elif isinstance(spec, Bool):
             doms.append([False, True])
         elif isinstance(spec, SeqOf) and n == "keys":
